@@ -337,6 +337,70 @@ def run(ctx):
               'tpkt::Client::read does not deframe as fast-path the first bytes %s although their action bits are FASTPATH (MS-RDPBCGR 2.2.9.1.2: '
               'action = bits 1..0, flags = bits 7..6)' % fmt_set(fp_must - accept['FastPath']))
     ctx.floor('R13.6', 'Ok paths whose kind depends on the first byte', n_disp, 3)
+
+    # R13.7 length form of a fast-path frame as a function of the first length byte (all 256 values folded statically): the two-byte form is
+    # taken exactly when bit 7 is set; in the one-byte form every value from 2 (the header alone) to 0x7f is accepted
+    form = {'short': set(), 'long': set()}
+    n_form = 0
+    for path in enum_paths(rd):
+        st = run_path(rd, path, P)
+        if not st.feasible or ret_kind(st.env.get(0)) != 'ok':
+            continue
+        okv = strip(st.env.get(0))
+        payload = strip(okv[3][0]) if okv[0] == 'agg' else ('unknown',)
+        if not (payload[0] == 'agg' and payload[2] == 'FastPath'):
+            continue
+        u8reads = sorted({n for br in path_branches(st) for n in walk(resolve(st, br[2]))
+                          if n[0] == 'mutated' and n[1] == '<u8 as model::data::Message>::read'}, key=lambda n: n[2])
+        nhdr = len([ev for ev in path_calls(st, [LINK_READ, READ_PAYLOAD]) if strip(ev[2][1])[0] == 'const'])
+        all_u8 = sorted({n for ev in st.events if ev[0] == 'call' for a in ev[3] for n in walk(a)
+                         if n[0] == 'mutated' and n[1] == '<u8 as model::data::Message>::read'} | set(u8reads), key=lambda n: n[2])
+        blocks_ = sorted({n[2] for n in all_u8})
+        if len(blocks_) < 2:
+            continue
+        seconds = [n for n in all_u8 if n[2] == blocks_[1]]
+        which = 'long' if len(blocks_) >= 3 else 'short'
+        n_form += 1
+        for b in range(256):
+            ok = True
+            for br in path_branches(st):
+                e0 = resolve(st, br[2])
+                if not any(n in seconds for n in walk(e0)):
+                    continue
+                e = e0
+                for second in seconds:
+                    e = subst_expr(e, second, ('const', b, str(b)))
+                e = fold(e)
+                if e[0] == 'const' and e[1] is not None and strip(br[2])[0] == 'bin':
+                    if bool(e[1]) != branch_truth(br):
+                        ok = False
+                        break
+                elif strip(br[2])[0] == 'discr':
+                    # `x.checked_sub(K)` arms: Some iff x >= K
+                    x_ = strip(strip(br[2])[1])
+                    while x_[0] == 'call' and re.search(r'Option::<T>::ok_or(_else)?$', x_[1]) and x_[3]:
+                        x_ = strip(x_[3][0])
+                    if x_[0] == 'call' and x_[1].endswith('::checked_sub') and len(x_[3]) == 2:
+                        a_ = resolve(st, x_[3][0])
+                        for second in seconds:
+                            a_ = subst_expr(a_, second, ('const', b, str(b)))
+                        a_ = fold(a_)
+                        k_ = fold(x_[3][1])
+                        if a_[0] == 'const' and k_[0] == 'const' and a_[1] is not None:
+                            some = a_[1] >= k_[1]
+                            took_some = (br[3] == 1) if 'ok_or' not in strip(strip(br[2])[1])[1] else (br[3] == 0)
+                            if some != took_some:
+                                ok = False
+                                break
+            if ok:
+                form[which].add(b)
+    want_long = set(range(0x80, 0x100))
+    want_short = set(range(2, 0x80))
+    ctx.check(form['long'] == want_long and form['short'] == want_short, 'R13.7', 'fastpath:length_form',
+              'the two-byte length form is taken exactly for a first length byte with bit 7 set; the one-byte form accepts 2..0x7f', rd.where(),
+              'tpkt::Client::read takes the two-byte fast-path length form for first length bytes %s and the one-byte form for %s; MS-RDPBCGR 2.2.9.1.2: '
+              'two bytes exactly when bit 7 is set (one-byte lengths 2..0x7f are all legal)' % (fmt_set(form['long']), fmt_set(form['short'])))
+    ctx.floor('R13.7', 'Ok(FastPath) paths (one per length form)', n_form, 2)
     ctx.floor('R13.2', 'Ok paths of tpkt::Client::read (slow path, fast path long, fast path short)', n_okp, 3)
     ctx.floor('R13.3', 'rejecting paths (declared length shorter than header)', n_guard_err, 1)
     ctx.check(kinds >= {'Raw', 'FastPath'}, 'R13.2', 'read:kinds', 'both payload kinds (Raw, FastPath) are produced', rd.where())
